@@ -7,13 +7,14 @@ import syscheck
 
 if __name__ == "__main__":
     setup_repo_path()
+    import gentie
     sys.exit(run_check(
-        "C01", lean_modules=["Pamiq.Props.C01"],
-        required_theorems=["Pamiq.Proto.ack_quiescent", "Pamiq.Proto.ack_no_executing",
+        "C01", lean_modules=["Pamiq.Props.C01", "Pamiq.Lemmas.ProtoCtl"],
+        required_theorems=["Pamiq.Proto.cedge_sound", "Pamiq.Proto.ack_quiescent", "Pamiq.Proto.ack_no_executing",
                            "Pamiq.Proto.ack_no_callback_begins", "Pamiq.Proto.clock_frozen",
                            "Pamiq.Proto.paused_ends_only_by_resume_or_shutdown",
                            "Pamiq.Proto.ack_requires_all_observed", "Pamiq.Proto.reachable_inv"],
-        suites=syscheck.make_suites("C01", [("C01", 450, 8000), ("any", 300, 6000), ("C02", 80, 2000), ("C03", 60, 2000)],
+        suites=[gentie.suite_for("C01")] + syscheck.make_suites("C01", [("C01", 450, 8000), ("any", 300, 6000), ("C02", 80, 2000), ("C03", 60, 2000)],
             "random scenarios (0-2 trainers, child agent, 1-3 attempts, queue 1-3, 1-10 web commands incl. "
             "pause/resume/save/status, save condition, faults, interrupts; 15% timed) x seeded random "
             "schedules of the real launch(); each trace replayed through Pamiq.Proto and checked by the "
